@@ -19,6 +19,14 @@ def Pc(n):
     return ["pct", [n, 1]]
 
 
+def position(rng, **kw):
+    """a length used as a coordinate: may be negative (sizes and radii may not)"""
+    l = length(rng, **kw)
+    if l != NOL and rng.random() < 0.25:
+        l = [l[0], [-l[1][0], l[1][1]]]
+    return l
+
+
 def length(rng, lo=0, hi=60, allow_none=True, allow_pct=True):
     r = rng.random()
     if allow_none and r < 0.2:
@@ -67,7 +75,7 @@ def gen_doc(rng, ntok):
         if r < 0.30 and depth < 4:
             kind = rng.choice(["g", "g", "svg", "svg", "defs"])
             if kind == "svg":
-                geo = [length(rng), length(rng), length(rng, 1), length(rng, 1), viewbox(rng), par(rng)]
+                geo = [position(rng), position(rng), length(rng, 1), length(rng, 1), viewbox(rng), par(rng)]
             else:
                 geo = []
             doc.append([kind, ident, tf if kind != "defs" else 0, disp, geo, []])
@@ -78,14 +86,14 @@ def gen_doc(rng, ntok):
             continue
         shape = rng.choice(["rect", "rect", "circle", "ellipse", "line", "polyline", "polygon", "path", "use", "use"])
         if shape == "rect":
-            geo = [length(rng), length(rng), length(rng, 1, allow_none=False), length(rng, 1, allow_none=False),
+            geo = [position(rng), position(rng), length(rng, 1, allow_none=False), length(rng, 1, allow_none=False),
                    rng.choice([NOL, NOL, A(2), A(40), A(0)]), rng.choice([NOL, NOL, A(3), A(50)])]
         elif shape == "circle":
-            geo = [length(rng), length(rng), length(rng, 1, allow_none=False, allow_pct=False)]
+            geo = [position(rng), position(rng), length(rng, 1, allow_none=False, allow_pct=False)]
         elif shape == "ellipse":
-            geo = [length(rng), length(rng), length(rng, 1, allow_none=False), length(rng, 1, allow_none=False)]      # (radii may be percentages: rx of the viewport width, ry of its height)
+            geo = [position(rng), position(rng), length(rng, 1, allow_none=False), length(rng, 1, allow_none=False)]      # (radii may be percentages: rx of the viewport width, ry of its height)
         elif shape == "line":
-            geo = [length(rng), length(rng), length(rng), length(rng)]
+            geo = [position(rng), position(rng), position(rng), position(rng)]
         elif shape in ("polyline", "polygon"):
             geo = [[R(rng.randint(-5, 9)), R(rng.randint(-5, 9))] for _ in range(rng.choice([0, 1, 2, 3, 4]))]
         elif shape == "path":
@@ -93,7 +101,7 @@ def gen_doc(rng, ntok):
         else:
             cand = [u for u in used if u not in open_ids]
             target = rng.choice(cand) if cand and rng.random() < 0.85 else "nothing"
-            geo = [target, rng.choice([NOL, A(10), A(3), Pc(10)]), rng.choice([NOL, A(20), A(5)])]
+            geo = [target, rng.choice([NOL, A(10), A(3), Pc(10), A(-7), Pc(-20)]), rng.choice([NOL, A(20), A(5), A(-4)])]
         doc.append([shape, ident, tf, disp, geo, []])
         if ident:
             used.append(ident)
